@@ -10,6 +10,7 @@ package c14
 // node's listing converges to the catalogue that order leaves (name -> id of the create that won).
 
 import (
+	"context"
 	"errors"
 	"fmt"
 	"sort"
@@ -197,50 +198,46 @@ func runCatCluster(c CatClusterCase, o *vt.Obs) *vt.Failure {
 				}
 				return vt.Failf(prop+"/outcomes-not-explained-by-any-order", ri, "round %d, table %q (before: id %d): concurrent calls%s - no sequential order explains these outcomes (e.g. two creates of one name succeeded, or a delete of an absent table succeeded)", ri, name, startID, desc)
 			}
-			// the listing on every node converges to one of the possible finals
+			// every node's lookup shows what that order leaves.  A node reads the catalogue from its local copy of the metadata state machine;
+			// a linearizable read through the raft group first (SyncRead) brings that copy up to everything acknowledged so far, so the
+			// comparison needs no waiting and no timing.
 			sort.Slice(finals, func(i, j int) bool { return finals[i] < finals[j] })
-			deadline := time.Now().Add(20 * time.Second)
-			for {
-				agreed, val := true, uint64(0)
-				for n, f := range cl14Fx {
-					tb, err := f.E.GetTable(prefix + name)
-					id := tb.ClusterID
-					if errors.Is(err, serrors.ErrTableNotFound) {
-						id = 0
-					} else if err != nil {
-						agreed = false
-						break
-					}
-					if n == 0 {
-						val = id
-					} else if id != val {
-						agreed = false
-					}
+			var vals []uint64
+			for n, f := range cl14Fx {
+				ctx, cancel := context.WithTimeout(context.Background(), 30*time.Second)
+				_, serr := f.E.NodeHost.SyncRead(ctx, 1000, kv.QueryExist{Key: "/tables/" + prefix + name})
+				cancel()
+				if serr != nil {
+					vt.Inconclusive(fmt.Sprintf("C14 cluster: linearizable catalogue read on node %d: %v", n+1, serr))
+					return nil
 				}
-				if agreed {
-					ok := false
-					for _, fid := range finals {
-						if fid == val {
-							ok = true
-						}
-					}
-					if ok {
-						if val == 0 {
-							delete(catalogue, name)
-						} else {
-							catalogue[name] = val
-						}
-						break
-					}
+				tb, err := f.E.GetTable(prefix + name)
+				id := tb.ClusterID
+				if errors.Is(err, serrors.ErrTableNotFound) {
+					id = 0
+				} else if err != nil {
+					return vt.Failf(prop+"/lookup-error", ri, "node %d lookup of %q: %v", n+1, name, err)
 				}
-				if time.Now().After(deadline) {
-					if !agreed {
-						vt.Inconclusive("C14 cluster: the nodes' catalogues did not agree within the time budget")
-						return nil
-					}
-					return vt.Failf(prop+"/lookup-differs", ri, "after round %d every node reports table %q with id %d; the orders that explain the calls' outcomes leave id in %v", ri, name, val, finals)
+				vals = append(vals, id)
+			}
+			for n, v := range vals {
+				if v != vals[0] {
+					return vt.Failf(prop+"/lookup-differs", ri, "after round %d (and a linearizable read on every node) node 1 resolves table %q to id %d but node %d resolves it to id %d (0 = not found); ids the round can have left: %v", ri, name, vals[0], n+1, v, finals)
 				}
-				time.Sleep(5 * time.Millisecond)
+			}
+			ok := false
+			for _, fid := range finals {
+				if fid == vals[0] {
+					ok = true
+				}
+			}
+			if !ok {
+				return vt.Failf(prop+"/lookup-differs", ri, "after round %d every node resolves table %q to id %d; the orders that explain the calls' outcomes leave id in %v", ri, name, vals[0], finals)
+			}
+			if vals[0] == 0 {
+				delete(catalogue, name)
+			} else {
+				catalogue[name] = vals[0]
 			}
 		}
 	}
